@@ -1,0 +1,14 @@
+//go:build verif
+// +build verif
+
+package memfs
+
+// VerifHook, when set, is called at the named points (verification builds
+// only). A hook may block: it doubles as a scheduler gate.
+var VerifHook func(site string, path string)
+
+func verifPoint(site string, path string) {
+	if h := VerifHook; h != nil {
+		h(site, path)
+	}
+}
